@@ -287,9 +287,9 @@ private:
         // Compute intercepts
         intercepts.reserve(segments.size());
         for (size_t i = 0; i < segments.size(); ++i) {
-            auto[i_x, i_y] = segments[i].get_intersection();
+            auto[i_x, i_y] = segments[i].get_intersection(segments[i].get_first_x()); // i_x is relative to the first key
             auto slope = slopes_table[mapping[i]];
-            auto intercept = (int64_t) std::round(i_y - (i_x - segments[i].get_first_x()) * slope);
+            auto intercept = (int64_t) std::round(i_y - i_x * slope);
             intercepts.push_back(intercept);
         }
 
